@@ -3,7 +3,7 @@
 cd "$(dirname "$(readlink -f "$0")")"
 . ./env.sh
 mkdir -p .bin evidence replays
-cp /repo/go.sum engine/go.sum
+# engine/go.sum is committed (scion's go.sum plus porcupine)
 rc=0
 for d in engine/checks/*/; do
   pkg=$(basename "$d")
